@@ -223,14 +223,14 @@ def run():
     uni, ust = common.tlc_eval_json("Dump_Universe", cfg="Dump_Universe_Q" if QUICK else "Dump_Universe_T")
     chk.add_tlc(ust)
     from harness.props.c03 import mutation_layers
-    for a in rng.sample(uni, 150 if QUICK else 3000):
+    for a in rng.sample(uni, 150 if QUICK else 10000):
         cases.append(drive(rng.choice(mutation_layers(a, rng, maxm=2)), rng))
     nuni = len(cases)
-    for i in range(900 if QUICK else 15000):
+    for i in range(900 if QUICK else 60000):
         a = gen.random_abstract(rng, N=rng.randint(2, 7), K=rng.randint(1, 5), max_edges=12, nsites=4, nmuts=4)
         cases.append(drive(a, rng))
     nplain = len(cases)
-    for i in range(400 if QUICK else 6000):
+    for i in range(400 if QUICK else 24000):
         try:
             cases.append(extend_case(rng))
         except Exception as e:
